@@ -1,6 +1,6 @@
 CONSTANTS
   Handles = {1, 2, 3}
-  LibNames = {"BensonGA", "GRWSurface2018", "SalciccioliGA2012", "GuSolventGA2017Aq", "GuSolventGA2017Vac", "X1", "X2", "X3"}
+  LibNames = {"~GRWSurface2018", "~BensonGA", "BensonGA", "GRWSurface2018", "SalciccioliGA2012", "GuSolventGA2017Aq", "GuSolventGA2017Vac", "X1", "X2", "X3"}
   Mols = {"none"}
   Props = {"S"}
   Temps = {1}
